@@ -38,6 +38,10 @@ def run_lifecycle(sc):
             return None
     params = {'blocksize': sc['bs'], 'stmin': sc['stmin']}
     peer = None
+    peer_params = dict(sc.get('peer_params') or {'blocksize': 4})
+    # frames the harness itself puts on the bus towards A (a First Frame longer than max_frame_size, a stray Flow Control)
+    inj = {'inject_toolong': gen.rx_match_frame(a, bytes([0x10, 0x00, 0x00, 0x00, 0x20, 0x00, 0xAA, 0xBB])),
+           'inject_fc': gen.rx_match_frame(a, bytes([0x30, 0x00, 0x00]))}
     if kind == 'tl':
         rxfn_a = rx_a
         if sc.get('legacy'):
@@ -49,7 +53,7 @@ def run_lifecycle(sc):
             # the user's own polling periods: must not stretch the time the reading thread needs to notice a stop request
             L.set_sleep_timing(idle=sc['idle_sleep'], wait_fc=0.005)
         if sc['peer']:
-            peer = isotp.TransportLayer(rx_b, lambda m: qa.put(m), core.make_address(b), None, {'blocksize': 4}, read_timeout=0.02)
+            peer = isotp.TransportLayer(rx_b, lambda m: qa.put(m), core.make_address(b), None, peer_params, read_timeout=0.02)
     else:
         import can
         chan = 'lc_%d_%d' % (sc['seed'], threading.get_ident())
@@ -61,7 +65,7 @@ def run_lifecycle(sc):
         L = isotp.NotifierBasedCanStack(bus1, notifier, address=core.make_address(a), error_handler=lambda e: errors.append(type(e).__name__),
                                         params=params, read_timeout=read_timeout)
         if sc['peer']:
-            peer = isotp.CanStack(bus2, address=core.make_address(b), params={'blocksize': 4}, read_timeout=0.02)
+            peer = isotp.CanStack(bus2, address=core.make_address(b), params=peer_params, read_timeout=0.02)
     if peer is not None:
         peer.start()
     base_threads = set(threading.enumerate())
@@ -75,7 +79,9 @@ def run_lifecycle(sc):
         if kind != 'tl' and len(notifier.listeners) != 0:
             return False        # a stopped stack must not leave a reader registered on the user's notifier (it would keep buffering frames)
         return (not L.started and L.main_thread is None and getattr(L, 'relay_thread', 'unset') is None and L.rx_relay_queue.empty()
-                and not L.is_rx_active() and not L.transmitting() and not L.available() and L.active_send_request is None and not extra)
+                and not L.is_rx_active() and not L.transmitting() and not L.available() and L.active_send_request is None and not extra
+                # idle also means: no Flow Control still owed to the bus, none still held for a transmission that is gone
+                and not L.pending_flow_control_tx and L.last_flow_control_frame is None)
 
     for op in sc['ops_list']:
         t0 = time.time()
@@ -97,6 +103,19 @@ def run_lifecycle(sc):
                 L.stop_receiving()
             elif op == 'process':
                 L.process()
+            elif op == 'process_rx':
+                L.process(do_tx=False)
+            elif op == 'process_tx':
+                L.process(do_rx=False)
+            elif op == 'send_long':
+                L.send(bytes([9] * 400))
+            elif op in inj:
+                fid, ext, data = inj[op]
+                msg = isotp.CanMessage(arbitration_id=fid, data=data, extended_id=ext)
+                if kind == 'tl':
+                    qa.put(msg)
+                else:
+                    bus2.send(can.Message(arbitration_id=fid, data=data, is_extended_id=ext))
             elif op == 'reset':
                 L.reset()
             elif op == 'sleep':
@@ -109,7 +128,10 @@ def run_lifecycle(sc):
             time.sleep(0.005)
             clean = '1' if is_clean() else '0'
         info.append((op, exc, dur, clean))
-        lines_in.append('tl %s' % op)
+        if op in inj:
+            lines_in.append('tl bus %d %d %s' % (inj[op][0], 1 if inj[op][1] else 0, inj[op][2].hex()))
+        else:
+            lines_in.append('tl %s' % ('send_mf' if op == 'send_long' else op))
         lines_out.append('%s|started=%d clean=%s' % ('ok' if exc is None else 'exc ' + exc, 1 if L.started else 0, clean))
     # restart check: a stopped-and-restarted layer transfers payloads (peer present)
     restart_ok = None
@@ -153,7 +175,9 @@ class C14(PropBase):
     theorems = []
     keep_ops = ()
     rule = ('operation sequences over {start, stop, send(single), send(multi), recv, stop_sending, stop_receiving, process, reset, sleep}: every '
-            'sequence of length <= 2 plus random ones up to length 8, on real TransportLayer and NotifierBasedCanStack objects with real threads, '
+            'sequence of length <= 2 plus random ones up to length 8 (also with receive-only / transmit-only process() passes and frames arriving from '
+            'the bus in between: an over-long First Frame, a stray Flow Control), stop() in the middle of a long transmission paced at 50-100 ms per '
+            'frame, legacy rxfn without timeout parameter and user sleep timings above the join timeout, on real TransportLayer and NotifierBasedCanStack objects with real threads, '
             'peer present / absent, read_timeout varied; observables: exception classes, started flag, threads alive / layer idle / queues empty '
             'after stop(), duration of stop(), transfer after restart; distinct = (class, peer?, op sequence)')
     assumptions = ['a thread asked to stop is observed dead within the join timeout (H-join)', 'real schedules are sampled',
@@ -173,6 +197,16 @@ class C14(PropBase):
         if sc['kind'] == 'tl' and rng.random() < 0.4:
             sc['legacy'] = rng.random() < 0.7
             sc['idle_sleep'] = rng.choice([0.001, 0.2, 1.6, 3.0])
+        r = rng.random()
+        if r < 0.15:
+            # stop() in the middle of a long, slowly paced transmission (the peer asks for 50 ms between frames): about 3 s of frames left
+            sc['peer'] = True
+            sc['peer_params'] = {'blocksize': rng.choice([0, 0, 20]), 'stmin': rng.choice([50, 100])}
+            sc['ops_list'] = ['start', 'send_long'] + ['sleep'] * rng.randrange(3, 14) + ['stop'] + rng.choice([[], ['start', 'sleep', 'stop']])
+        elif r < 0.35:
+            # a layer driven by hand with partial passes, frames arriving from the bus, then the lifecycle calls
+            pool = OPS[:9] + ['process_rx', 'process_rx', 'process_tx', 'inject_toolong', 'inject_fc', 'inject_toolong', 'send_mf']
+            sc['ops_list'] = [rng.choice(pool) for _ in range(rng.randrange(3, 9))]
         return sc
 
     def enumerate(self, tier):
@@ -188,6 +222,21 @@ class C14(PropBase):
                 k += 1
                 yield {'ops': [], 'ops_list': list(ops), 'addrs': (a, b), 'kind': kind, 'peer': kind == 'notifier' and len(ops) >= 4,
                        'read_timeout': 0.05, 'bs': 2, 'stmin': 0, 'seed': 1000 + k}
+        # every way a receive-only / transmit-only pass can leave Flow Control state behind, followed by stop() [and a restart]
+        for kind in ('tl', 'notifier'):
+            for pre in (['inject_toolong'], ['inject_fc'], ['send_mf', 'process', 'inject_fc'], ['send_mf', 'process_tx', 'inject_fc']):
+                for mid in (['process_rx'], ['process_rx', 'process_rx'], ['process_rx', 'process_tx'], ['process_tx', 'process_rx']):
+                    for post in (['stop'], ['stop', 'process'], ['stop', 'start', 'sleep', 'stop'], ['reset', 'stop']):
+                        k += 1
+                        yield {'ops': [], 'ops_list': pre + mid + post, 'addrs': (a, b), 'kind': kind, 'peer': False, 'read_timeout': 0.05, 'bs': 2,
+                               'stmin': 0, 'seed': 1000 + k}
+        # stop() in the middle of a long paced transmission
+        for nsleep in (4, 9):
+            for bs in (0, 20):
+                k += 1
+                yield {'ops': [], 'ops_list': ['start', 'send_long'] + ['sleep'] * nsleep + ['stop', 'start', 'sleep', 'stop'], 'addrs': (a, b),
+                       'kind': 'tl', 'peer': True, 'peer_params': {'blocksize': bs, 'stmin': 50}, 'read_timeout': 0.05, 'bs': 2, 'stmin': 0,
+                       'seed': 1000 + k}
         # legacy rxfn (no timeout parameter) / user polling periods far above the join timeout of stop()
         for legacy in (True, False):
             for idle in (1.6, 3.0):
@@ -211,7 +260,7 @@ class C14(PropBase):
                     out.append(('exceptions', 'start() raised %s' % exc))
                 if exc is None:
                     started = True
-            elif op in ('process', 'reset'):
+            elif op in ('process', 'reset', 'process_rx', 'process_tx'):
                 if started and exc != 'RuntimeError':
                     out.append(('exceptions', '%s() while started gave %s instead of RuntimeError' % (op, exc)))
                 if not started and exc is not None:
